@@ -28,6 +28,10 @@ pub struct Params {
     /// timestamp retrieval): every Delay_Resp is handled before its Delay_Req's timestamp
     #[serde(default)]
     pub late_tx_ts: bool,
+    /// time base of both clocks: 0 = 1.7e9 s (today), 1 = 2^40 s, 2 = 2^47 s + 12345 s (the far end
+    /// of the 48-bit seconds range a PTP timestamp can carry)
+    #[serde(default)]
+    pub base_kind: u8,
 }
 
 pub struct Outcome {
@@ -89,6 +93,14 @@ pub fn clean_class_deadlines(p: &Params) -> Option<(f64, f64)> {
 
 pub const T0_UNITS: u128 = 1_700_000_000u128 * SEC;
 
+pub fn t0_units(p: &Params) -> u128 {
+    match p.base_kind {
+        1 => (1u128 << 40) * SEC,
+        2 => ((1u128 << 47) + 12345) * SEC,
+        _ => T0_UNITS,
+    }
+}
+
 pub fn simulate(p: &Params, horizon_s: f64) -> Outcome {
     let mut out = Outcome {
         last_exceed_s: None,
@@ -103,7 +115,8 @@ pub fn simulate(p: &Params, horizon_s: f64) -> Outcome {
     };
     let mut sim = Sim::new(p.seed);
     // master: perfect clock, best priority
-    let mclock = Arc::new(Mutex::new(SimClock::new(0, T0_UNITS, 0.0)));
+    let t0 = t0_units(p);
+    let mclock = Arc::new(Mutex::new(SimClock::new(0, t0, 0.0)));
     mclock.lock().unwrap().record = false;
     let mut mb = Build::new(0x10);
     mb.priority1 = 100;
@@ -114,7 +127,7 @@ pub fn simulate(p: &Params, horizon_s: f64) -> Outcome {
     let Ok(m) = mb.build() else { return out };
     // slave: offset + oscillator error, the real Kalman servo with the daemon's defaults
     let off_units = (p.offset_s * 1e9 * 4294967296.0) as i128;
-    let sclock = Arc::new(Mutex::new(SimClock::new(0, (T0_UNITS as i128 + off_units) as u128, p.ppm)));
+    let sclock = Arc::new(Mutex::new(SimClock::new(0, (t0 as i128 + off_units) as u128, p.ppm)));
     let mut sb = Build::new(0x20);
     sb.priority1 = 200;
     sb.log_sync = p.log_sync;
@@ -205,6 +218,7 @@ pub fn gen_params(rng: &mut StdRng, i: u64) -> Params {
         one_step: rng.gen_bool(0.4),
         seed: rng.gen(),
         late_tx_ts: rng.gen_bool(0.2),
+        base_kind: [0u8, 0, 0, 0, 1, 2][rng.gen_range(0..6)],
     }
 }
 
@@ -225,6 +239,9 @@ pub fn run_case(rep: &mut Report, p: &Params, hist: &mut Vec<f64>, conv: &mut Ve
     rep.ev("closed_loop_run");
     if p.late_tx_ts {
         rep.ev("closed_loop_run_with_late_tx_timestamps");
+    }
+    if p.base_kind != 0 {
+        rep.ev("closed_loop_run_far_future_time_base");
     }
     if let Ok(path) = std::env::var("VP_C02_DUMP") {
         use std::io::Write;
